@@ -25,7 +25,7 @@ NEEDS_RUST = True
 WORKERS = 14
 CASE_TIMEOUT = 200
 QUIESCENCE_SCOPE = "process"   # helpers are polling feeders only
-QUIESCENCE_AFTER = 12.0
+QUIESCENCE_AFTER = 20.0
 REQUIRED_OBS = ["passes_compared", "gated_passes", "out_of_order_releases", "early_drops", "thread_count_checks",
                 "native_harness_tests"]
 RULE = ("compressions {'',LZ4,GZIP,ZLIB} x attribute layouts x shards n in 1..12 x threads T in 1..n+3 x forced "
@@ -178,6 +178,36 @@ def run_case(case: dict) -> dict:
                                    "msg": f"{label}: {after - before} native thread(s) still alive 3 s after the "
                                           f"iterator was dropped ({before} -> {after})"})
             sigs.append([comp, layout, len(paths), T, gated, position if total <= 8 else "sampled"])
+        # ---- a damaged shard (one of the last ones): the Python reader raises, so must the Rust reader
+        if len(paths) >= 2:
+            victim = paths[rng.choice([len(paths) - 1, max(0, len(paths) - 2)])]
+            original_bytes = victim.read_bytes()
+            damage = rng.choice(["deleted", "truncated"])
+            try:
+                if damage == "deleted":
+                    victim.unlink()
+                else:
+                    victim.write_bytes(original_bytes[:max(1, len(original_bytes) // 2)])
+                outcomes = {}
+                for name, T in (("python", None), ("rust-1", 1), ("rust-2", 2), ("rust-many", len(paths) + 1)):
+                    try:
+                        kwargs = {} if T is None else {"file_parallelism": T}
+                        got = readers.read(Dataset(root), "sync" if T is None else "rust", "train", shuffle=0,
+                                           repeat=False, **kwargs)
+                        outcomes[name] = f"ended normally with {len(got)} examples"
+                    except BaseException as exc:  # pylint: disable=broad-exception-caught
+                        if isinstance(exc, (KeyboardInterrupt, SystemExit)):
+                            raise
+                        outcomes[name] = "raised"
+                obs["damaged_shard_differentials"] += 1
+                if outcomes["python"] == "raised":
+                    for name, outcome in outcomes.items():
+                        if outcome != "raised":
+                            violations.append({"key": "rust-ends-normally-where-python-raises",
+                                               "msg": f"fb/{comp or 'none'} {damage} shard {paths.index(victim)} of {len(paths)}: "
+                                                      f"{name} {outcome}, the Python reader raised"})
+            finally:
+                victim.write_bytes(original_bytes)
         # ---- overlapping readers with non-nested lifetimes: A starts, B starts, A finishes, C starts while B
         #      is mid-way (train/validation interleaving across an epoch boundary)
         try:
